@@ -24,7 +24,7 @@ def main():
     checks = args
     dest = os.path.join(VERIF, 'seeded', sid)
     os.makedirs(dest, exist_ok=True)
-    for n in os.listdir(src):
+    for n in os.listdir(src) if os.path.abspath(src) != os.path.abspath(dest) else []:
         p = os.path.join(src, n)
         if os.path.isfile(p) and os.path.getsize(p) < 200000 and not os.access(p, os.X_OK) or n.endswith('.sh'):
             shutil.copy(p, dest)
